@@ -26,6 +26,35 @@ CLAIMED = {
              "messages) is a record that TLC judges with the same monitor (EodOnce/NoBareLF/lines preserved).",
         note="alphabet {CR,LF,'.',x} represents the byte classes; scripted server and seam harness are trusted to record bytes faithfully",
         design="5 C06"),
+    "C03": dict(
+        technique="TLA+ model of the queue manager as a generator of observable events composed with a monitor state machine (TLC, exhaustive for small configurations) + TLC trace validation of histories executed on the real qmail-send/qmail-clean/qmail-queue under a system-call gate (crash before every mutating call, data kept / lost, single failing calls)",
+        text="TLC explores QSend (accept, preprocess, deliveries, any report class in any order, foreign reports, bounce, crash with optional loss of un-synced marks "
+             "and bounce records, TERM/restart) with the invariant that the monitor QSendMon never objects. The same monitor judges every history run on the real "
+             "programs: a controller plays qmail-start and both spawners, every system call of the daemon, the cleaner and qmail-queue is granted one at a time, "
+             "so crashes and failures are placed before any chosen call and quiescence is exact.",
+        note="delivery agents are not run (the controller answers delivery commands); lossy crash = per-file revert to the last fsync image, marks individually; time is virtual",
+        design="5 C03"),
+    "C04": dict(
+        technique="same engine as C03: TLC model of the queue manager + monitor; TLC trace validation of gated histories of the real daemon, biased to many recipients, concurrency 0..n and announced limits, with crash points",
+        text="The C04 clauses of the monitor (finished recipient attempted again, two attempts in flight, concurrency limit = min(configured, announced) exceeded, "
+             "delivery number in use, delivered twice without crash) are invariants of the TLC model and are evaluated on every history of the real daemon, including a "
+             "crash before each of its mutating calls with marks kept or individually lost (the exemption for lost marks is computed by the crash model, not by the harness).",
+        note="as C03",
+        design="5 C04"),
+    "C12": dict(
+        technique="TLA+ models of the maildir writer (call order as data, Kill/Crash/Lose/fault) and of the mbox appender (1-3 deliverers, all interleavings) checked by TLC + TLC validation of gated/faulted runs of the real qmail-local; call order of the real build lifted into the model",
+        text="MailStore.tla states what may be visible in new/ and what the mbox(5) reader must read back; Maildir.tla/Mbox.tla are explored exhaustively (wrong variants of "
+             "the models must be rejected in every run). The real qmail-local is stepped call by call through the gate (kill before every call, every single failing call, "
+             "name collisions, 2-3 concurrent mbox deliveries with failing writes); every listing/record is judged by TLC with the same monitors.",
+        note="alarm paths (24 h / 30 s) not exercised; real mbox interleavings sampled; failed mbox fsync/close accepted either way (the statement names writes)",
+        design="5 C12"),
+    "C13": dict(
+        technique="TLA+ declarative reading of dot-qmail(5)/qmail-command(8) (Search, Walk, Judge) vs. transcription of qmail-local main() checked by TLC on exhaustive slices + TLC validation of thousands of real qmail-local runs in generated homes",
+        text="DotQmail.tla derives from the documents the allowed observation for a case; DotQmailP.tla transcribes qmail-local.c and is checked against it on three exhaustive "
+             "slices plus hand-computed vectors (also proving the monitor rejects falsified observations). The real qmail-local runs as an unprivileged uid in materialised "
+             "homes with probe programs and the recording QMAILQUEUE; every run is a record judged by TLC with the same Judge.",
+        note="group-writable homes/files, sticky under -n and non-+list '+' lines are left unconstrained (documents and shipped conf-patrn differ or are silent)",
+        design="5 C13"),
     "C15": dict(
         technique="TLC model check of the transcribed square-root loop, back-off formula and array heap + TLC validation of records from the real squareroot()/nextretry()/prioq.c (seam), C sweep of the post-condition over the 2^32 domain",
         text="TLC proves on the complete domain of a scaled loop that the shift-and-subtract algorithm is the floor square root, that the back-off time is "
